@@ -17,7 +17,7 @@ class C07(PropBase):
     lean_modules = ["SqModel.Props.C07", "SqModel.Proofs.Bridge", "SqModel.Proofs.BridgePlane"]
     extractors = ["trans"]
     rule = ("every 6-bit code 0..63 in each of the 8 character positions (512 frames) plus random 48-bit strings, TC 1..4 x "
-            "CA 0..7, as creating frame, after a DF11, after an identification squitter with the same characters but another type code and category, and after two identification squitters that differ in one character (each position), -U/-R on/off; BDS 2,0 via DF20 and DF21 under capability 0..7 x -R, for rows with and without an earlier identification squitter. "
+            "CA 0..7, as creating frame, after a DF11, after an identification squitter with the same characters but another type code and category, and after two identification squitters that differ in one character (each position), -U/-R on/off; BDS 2,0 via DF20 and DF21 under capability 0..7 x -R, for rows with and without an earlier identification squitter, and after earlier replies with BDS 1,0 (any content), 3,0 and 1,7 reports. "
             "row.ais / row.category against the expectation computed from the generated codes and against the Lean spec "
             "line. Non-trivial = callsign with at least one character; distinct by (frame, options).")
 
@@ -83,6 +83,7 @@ class C07(PropBase):
                 ops = ["reset", gen.cfg_op(use_update=u, relaxed=r), "case 0"]
                 cases = []
                 pre, rep_frames = [], []
+                mine = {}
                 for i in range(n):
                     a = 0x600000 + i
                     ca = i % 8
@@ -98,6 +99,14 @@ class C07(PropBase):
                         pre.append(F.df17(ca, a, F.me_ident(1 + i % 4, 1 + i % 7, pc)))
                         prev = '"%s"' % expect_callsign(pc)
                         prevcat = "%d/%d" % (1 + i % 4, 1 + i % 7)
+                    if i % 5 == 2:
+                        # the aircraft has answered with other registers before: a data link capability report (BDS 1,0, any
+                        # content - also with "no aircraft identification capability"), an ACAS report (3,0), a BDS 1,7 report.
+                        # What another register said decides nothing about the call sign of a BDS 2,0 reply.
+                        for mb0 in (0x10 << 48 | (rng.randrange(1 << 48) & ~(0x1F << 42) & ~(rng.randrange(2) << 23)),
+                                    0x30 << 48 | rng.randrange(1 << 48), rng.randrange(1 << 24) << 32):
+                            pre.append(F.df20(0, 0, 0, F.ac13_q1(1000), mb0, a) if rng.randrange(2) else F.df21(0, 0, 0, 0o1234, mb0, a))
+                            mine.setdefault(a, []).append(pre[-1])
                     cases.append((a, ca, codes, fr, prev, prevcat))
                 ops += gen.seg(pre) + gen.seg(rep_frames) + ["dump"]
                 impl, _, model = run.execute(ops, model=driver_ok)
@@ -111,12 +120,12 @@ class C07(PropBase):
                     if rows.get(a, {}).get("cat") != prevcat:
                         self.fail(rep, f"BDS 2,0 reply {fr} changed the emitter category of {a:06X} from {prevcat} to {rows.get(a, {}).get('cat')} "
                                        f"(capability {ca}, relaxed={r}, use_update={u})",
-                                  {"ops": ["reset", gen.cfg_op(use_update=u, relaxed=r)] + gen.seg([f for f in pre if f[2:8] == "%06X" % a]) + gen.seg([fr]) + ["dump"],
+                                  {"ops": ["reset", gen.cfg_op(use_update=u, relaxed=r)] + gen.seg([f for f in pre if f[2:8] == "%06X" % a] + mine.get(a, [])) + gen.seg([fr]) + ["dump"],
                                    "frame": fr, "address": a})
                         return
                     if got != want:
                         self.fail(rep, f"BDS 2,0 reply {fr} for capability {ca}, relaxed={r}: row shows ais={got}, expected {want}",
-                                  {"ops": ["reset", gen.cfg_op(use_update=u, relaxed=r)] + gen.seg([f for f in pre if f[2:8] == "%06X" % a]) + gen.seg([fr]) + ["dump"],
+                                  {"ops": ["reset", gen.cfg_op(use_update=u, relaxed=r)] + gen.seg([f for f in pre if f[2:8] == "%06X" % a] + mine.get(a, [])) + gen.seg([fr]) + ["dump"],
                                    "frame": fr, "expected_ais": want.strip('"'), "address": a})
                         return
                     rep.nontriv(("bds20", fr, r, u))
